@@ -22,8 +22,48 @@ ASSUMPTIONS = ["FITPACK's contract (sum of squared deviations <= s*(1+1e-3), exa
 PARTIAL = "everything about the spline itself is SciPy/FITPACK (assumed contract); proved: the forwarded triple, default s, frame"
 
 
+LONG_SIZES = [65537, 98305, 131073, 196609, 262145, 393217, 524289, 786433]      # 2**k + 1 and 3 * 2**k + 1
+
+
+def long_case(rng, size=None):
+    """a long series (hundreds of thousands of samples) with implicit or integer abscissae, smoothed with s = 0 (the only
+    setting FITPACK answers quickly at this size): the result is the series"""
+    return {"long": size or rng.choice(LONG_SIZES), "xkind": rng.choice(["none", "int", "table"]), "x": ["0", "1"],
+            "y": [str(v) for v in rng.values(9)], "s": 0.0, "shape": "noisy", "int_y": False,
+            "layout": "contig,contig,contig", "hist": "none"}
+
+
+def run_long(c):
+    from traffic_weaver import Weaver
+    n = c["long"]
+    pat = np.array(floats([Fraction(v) for v in c["y"]]))
+    y = np.resize(pat, n) + np.arange(n) % 5 * 0.25
+    if c["xkind"] == "none":
+        w = Weaver(None, y.copy())
+    elif c["xkind"] == "int":
+        w = Weaver(np.arange(n), y.copy())
+    else:
+        w = Weaver.from_2d_array(np.column_stack([np.arange(n, dtype=float), y]))
+    with warnings.catch_warnings():
+        warnings.simplefilter("ignore")
+        try:
+            r = w.smooth(0.0).get()[1]
+        except Exception as e:  # noqa
+            return {"err": err_kind(e)}
+    r = np.asarray(r, dtype=float)
+    bad = np.nonzero(~(np.abs(r - y) <= 1e-7 * max(1.0, float(np.max(np.abs(y))))))[0] if len(r) == n else np.array([-1])
+    return {"long_ok": len(bad) == 0, "len": int(len(r)), "first_bad": int(bad[0]) if len(bad) else None,
+            "bad_value": (float(r[bad[0]]) if len(bad) and bad[0] >= 0 else None), "warned": False}
+
+
 def cases(rng, tier):
     n_ = {"quick": 200, "thorough": 2000}.get(tier, 150)
+    if tier == "thorough":
+        for sz in LONG_SIZES:
+            yield long_case(rng, sz)
+    else:
+        yield long_case(rng, 786433 if tier == "quick" else None)
+        yield long_case(rng)
     for _ in range(n_):
         n = rng.randint(5, 40)
         x = rng.increasing(n)
@@ -45,10 +85,14 @@ def cases(rng, tier):
 
 
 def request(c):
+    if c.get("long"):
+        return []
     return f"defaults {fmt_list([Fraction(v) for v in c['y']])}"
 
 
 def run_impl(c):
+    if c.get("long"):
+        return run_long(c)
     from traffic_weaver import Weaver
     from traffic_weaver.process import spline_smooth
     x = S.arr(floats([Fraction(v) for v in c["x"]]))
@@ -93,7 +137,7 @@ def scipy_direct(x, y, s):
 def compare(c, io, mo):
     if "err" in io:
         return f"impl raised {io['err']}"
-    if io["warned"]:
+    if io["warned"] or c.get("long"):
         return None
     x = S.arr(floats([Fraction(v) for v in c["x"]]))
     y = S.arr(floats([Fraction(v) for v in c["y"]]))
@@ -111,6 +155,11 @@ def compare(c, io, mo):
 def oracle(c, io):
     if "err" in io:
         return f"smoothing raised {io['err']}"
+    if c.get("long"):
+        if not io["long_ok"]:
+            return (f"smooth(0) of a series of {c['long']} samples ({c['xkind']} abscissae) is not the series: length {io['len']}, "
+                    f"sample {io['first_bad']} became {io['bad_value']!r} (summed squared deviation > s = 0)")
+        return None
     if io["warned"]:
         return None
     y = floats([Fraction(v) for v in c["y"]])
@@ -144,6 +193,8 @@ def oracle(c, io):
 
 
 def tags(c, io, mo):
+    if c.get("long"):
+        return ["long-series", f"long:x={c['xkind']}"]
     return [f"s={c['s']}", f"shape={c['shape']}"] + (["fitpack-warning-discarded"] if io.get("warned") else [])
 
 
